@@ -285,7 +285,9 @@ OmExport(s) ==
 \* is-authorized (p) contexts differ only in what is installed.
 Seg(pid) == [q \in 1..WG |-> (7 * q + pid) % 251]
 VarLen(v) == IF Len(v) < 128 THEN <<Len(v)>> \o v ELSE <<128 + (Len(v) \div 256), Len(v) % 256>> \o v
-SOf(fx, k) == LET w == fx.p.items[k] nx == IF k <= Len(fx.x) THEN Len(fx.x[k]) ELSE 0 IN
+\* |w_x| is a property of the package: taken from fx.nx when the extrinsic DATA is not part of the context (is-authorized)
+SOf(fx, k) == LET w == fx.p.items[k]
+                  nx == IF "nx" \in DOMAIN fx THEN (IF k <= Len(fx.nx) THEN fx.nx[k] ELSE 0) ELSE IF k <= Len(fx.x) THEN Len(fx.x[k]) ELSE 0 IN
               w.s \o w.h \o w.g \o w.a \o LE(w.e, 2) \o LE(w.ni, 2) \o LE(nx, 2) \o LE(Len(w.y), 4)
 \* 1-based index named by a 64-bit register into a list of n elements, 0 if out of range
 Idx(reg, n) == IF LtU(reg, U(n)) THEN IntOf(reg) + 1 ELSE 0
